@@ -152,6 +152,19 @@ Proof. induction st as [|l st [IH1 IH2]]; [split; reflexivity|]. cbn [cookies an
   unfold own_hdrs. destruct (lkind l); cbn; try (split; [reflexivity|exact IH2]);
   destruct (sticky l); cbn; split; try reflexivity; try exact IH2. Qed.
 
+(* the response headers in full: every header line the handler added (a Set-Cookie of its own included), in order,
+   preceded by exactly the affinity cookies of the sticky balancers of the stack *)
+Theorem transparent_hdrs st cn hs s ws :
+  flush_ok cn = true -> Forall passive st ->
+  let h := nf_handler hs s ws in
+  v_hdrs (client_view (fst (serve st cn h))) = cookies st ++ v_hdrs (client_view (run_handler cn h)) /\
+  n_cookies (cookies st) = Z.of_nat (length (filter (fun l => match lkind l with KRR | KReb => sticky l | _ => false end) st)).
+Proof. intros Hcn Hp. cbn zeta. split.
+  - destruct (serve_passive st Hp cn hs s ws) as (s' & ws' & E & _). rewrite E. cbn [fst].
+    rewrite run_handler_nf. rewrite Hcn. rewrite !client_view_nf. reflexivity.
+  - clear. unfold n_cookies. f_equal. induction st as [|l st IH]; [reflexivity|]. cbn [cookies filter].
+    rewrite filter_app, app_length, IH. unfold own_hdrs. destruct (lkind l); cbn; try reflexivity; destruct (sticky l); reflexivity. Qed.
+
 Theorem transparent st cn hs s ws :
   flush_ok cn = true ->
   Forall passive st -> (forall kv, In kv hs -> fst kv < 1000) -> (forall c, s = Some c -> c <> 0) ->
